@@ -15,7 +15,7 @@ for d in benign/C*-*/; do s=$(basename $d)
   p=$(python3 -c "import json;print(json.load(open('$d/meta.json'))['property'])")
   k=$(python3 -c "import json;print(json.load(open('$d/meta.json')).get('kind','')[:70].replace('|','/'))")
   git -C /repo apply /verif/$d/patch.diff || { echo "| $s | $k | PATCH DOES NOT APPLY | |"; continue; }
-  o=$(bin/btcdlint check $p 2>&1); rc=$?
+  o=$(VERIF_EVIDENCE_DIR=/tmp/ev bin/btcdlint check $p 2>&1); rc=$?   # evidence of a patched run never lands in evidence/
   git -C /repo checkout -- . ; git -C /repo clean -fdq
   kinds=$(echo "$o" | grep -E '^[^ ]+:[0-9]+: |^-: |^: ' | sed -E 's/^[^ ]*: ([a-z0-9/-]+):.*/\1/' | sort | uniq -c | sort -rn | awk '{printf "%s (%s), ", $2, $1}')
   sil=yes; [ $rc -ne 0 ] && sil=NO
